@@ -167,7 +167,8 @@ def snapshot(o):
     ncols = data.shape[1] if k == "D" else 1
     snap = {"kind": k, "dtype": dtype_id(data.dtype), "rows": from_np(data) if not (k == "D" and data.shape[1] == 0) else [[] for _ in range(len(data))],
             "ncols": ncols, "start": o.start_index, "count": o.sample_count, "cap": o.capacity,
-            "resizable": bool(base.flags.owndata and base.flags.c_contiguous),
+            # ndarray.resize needs to own its data unless the total size stays 0 (a waveform with 0 signals)
+            "resizable": bool(base.flags.owndata and base.flags.c_contiguous) or ncols == 0,
             "timing": timing_desc(o.timing) if k != "S" else {"mode": 0, "ts": None, "off": None, "si": None, "tss": None},
             "scale": scale_id(o.scale_mode) if k in ("A", "C") else 0,
             "props": {kk: vv for kk, vv in o.extended_properties.items()},
@@ -586,6 +587,7 @@ def arrc(ad, copy_owns=None):
     vals, ndim, nc = ad["vals"], ad["ndim"], ad["ncols"]
     rows = vals if ndim in (1, 2) else []
     owns = ad["form"] == "own" if copy_owns is None else copy_owns
+    owns = owns or (ndim == 2 and nc == 0)        # a zero-size buffer can always be "resized"
     return "{| a_rows := %s; a_ndim := %s; a_ncols := %s; a_dtype := %d; a_owns := %s |}" % (
         rowsc(rows), vf.natc(ndim), vf.natc(nc), DTYPES.index(ad["dtype"]), vf.boolc(owns))
 
